@@ -26,6 +26,7 @@ VERIF = os.path.dirname(HERE)
 LEAN = os.path.join(VERIF, "lean")
 sys.path.insert(0, HERE)
 import build_repo  # noqa: E402
+import fingerprint  # noqa: E402
 from registry import PROPS  # noqa: E402
 
 PY = "/venv/bin/python"
@@ -276,6 +277,28 @@ def script_crash(so):
     return last[:300]
 
 
+# ---------------------------------------------------------------------------------- change-directed effort
+def relevant_changes(prop):
+    """units (functions / Fortran procedures / glue files) of /repo that differ from the tree this framework was last
+    validated on AND live in a file the property is anchored in (properties.jsonl) or in the C glue.  Only used to
+    decide how much to explore, never for the verdict."""
+    try:
+        ch = fingerprint.changed(os.environ.get("BEZIER_REPO", "/repo"))
+        if not ch:
+            return []
+        files = set()
+        with open(os.path.join(VERIF, "properties.jsonl")) as fh:
+            for line in fh:
+                rec = json.loads(line)
+                if rec.get("id") == prop:
+                    files = set(rec.get("anchors", {}).get("files", []))
+        glue = ("_speedup.c", "_speedup.pyx", ".pxd", ".h")
+        return [u for u in ch if fingerprint.unit_file(u) in files or fingerprint.unit_file(u).endswith(glue)]
+    except Exception as exc:  # noqa  (never let the effort heuristic break a check)
+        log("fingerprint comparison failed: %r" % (exc,))
+        return []
+
+
 # ---------------------------------------------------------------------------------- findings
 def load_findings(prop):
     """known_findings.txt: `finding: property=<id> key=<key> config=<cfg> :: <what>`"""
@@ -365,6 +388,28 @@ def main():
                                                             "" if not lean["broken"] else "; BROKEN: " + "; ".join(lean["broken"][:6])))
     results = run_scripts(prop, tier, seed, build)
 
+    # change-directed effort: units of this property's anchor files that differ from the validated baseline tree
+    changed_units = relevant_changes(prop)
+    escalated = []
+    if changed_units and not any(res["failures"] for res in results):
+        n_extra = int(os.environ.get("VERIF_ESCALATE", "2"))
+        budget = float(os.environ.get("VERIF_ESCALATE_BUDGET", "420" if tier == "quick" else "7200"))
+        log("source units changed w.r.t. the validated tree: %s%s" % (", ".join(changed_units[:6]), " ..." if len(changed_units) > 6 else ""))
+        for k in range(1, n_extra + 1):
+            if time.time() - t0 > budget:
+                log("escalation budget used up after %d extra pass(es)" % (k - 1))
+                break
+            s2 = seed + 1009 * k
+            log("extra pass %d with seed %d" % (k, s2))
+            extra = run_scripts(prop, tier, s2, build, extra_env=dict({"VERIF_FOCUS": " ".join(changed_units)}, **({"VERIF_SEARCH": "1"} if k % 2 == 0 else {})),
+                                tag="esc%d" % k)
+            for res in extra:
+                res["config"] = "%s@seed%d" % (res["config"], s2)
+            results += extra
+            escalated.append(s2)
+            if any(res["failures"] for res in extra):
+                break
+
     findings = load_findings(prop)
     violations = []
     known_hit = {}
@@ -417,14 +462,16 @@ def main():
         lines.append("VIOLATION property=%s replay=%s no-failing-input-found" % (prop, path))
         exit_code = 1
 
-    write_evidence(prop, tier, seed, lean, results, known_hit, violations, extract_problems, time.time() - t0, searched)
+    write_evidence(prop, tier, seed, lean, results, known_hit, violations, extract_problems, time.time() - t0, searched,
+                   changed_units, escalated)
     for l in lines:
         print(l, flush=True)
     log("%s %s: %s in %.1fs" % (prop, tier, "HELD" if exit_code == 0 else "VIOLATION", time.time() - t0))
     sys.exit(exit_code)
 
 
-def write_evidence(prop, tier, seed, lean, results, known_hit, violations, extract_problems, wall, searched):
+def write_evidence(prop, tier, seed, lean, results, known_hit, violations, extract_problems, wall, searched,
+                   changed_units=(), escalated=()):
     spec = PROPS[prop]
     samples = []
     for res in results:
@@ -460,6 +507,8 @@ def write_evidence(prop, tier, seed, lean, results, known_hit, violations, extra
             "skipped": {rkey(res): res["skipped"] for res in results},
             "extract_problems": extract_problems,
             "search_after_break": searched,
+            "source_units_changed_since_validated_tree": list(changed_units),
+            "extra_seeds_run_because_of_source_changes": list(escalated),
             "notes": [n for res in results for n in res["notes"]],
         },
         "assumptions": spec.get("assumptions", []),
